@@ -1497,6 +1497,13 @@ def build(tier='quick', seed=0):
         decl('float', 'f64', validators=[V('finite')], derives=['Debug', 'Default'], default={'text': 'if true { 1.5 } else { 2.5 }', 'value': 1.5},
              tags=['default', 'brace-default']),
         decl('string', 'String', validators=[V('not_empty')], derives=['Debug', 'Default'], default={'text': '"{}{x}"', 'value': '{}{x}'}, tags=['default', 'brace-default']),
+        # arithmetic on unsuffixed float literals is done in the inner type (f32 here): 1.0 - 0.9 is 0.100000024, not 0.1
+        decl('float', 'f32', validators=[V('finite'), V('greater', '0.1', 0.1, 'lit')], derives=['Debug', 'Default', 'TryFrom'],
+             default={'text': '1.0 - 0.9', 'value': f32_round(f32_round(1.0) - f32_from_decimal('0.9'))}, tags=['default', 'literal-typing']),
+        decl('float', 'f32', derives=['Debug', 'Default', 'From'],
+             default={'text': '0.1 * 0.1', 'value': f32_round(f32_from_decimal('0.1') * f32_from_decimal('0.1'))}, tags=['default', 'literal-typing']),
+        decl('int', 'u8', validators=[V('less', '200', 200, 'lit')], derives=['Debug', 'Default', 'TryFrom'],
+             default={'text': '100 + 50', 'value': 150}, tags=['default', 'literal-typing']),
     ]
     nostd += [copy.deepcopy(d) for d in brace_defaults if d['family'] != 'string']   # C15 is about integer/float/other inner types
     full += [copy.deepcopy(d) for d in brace_defaults]
